@@ -113,13 +113,16 @@ def run_kpasswd(run, quick=True):
             if not expect:
                 run.add_model(res)
         trace = os.path.join(wd, "trace.ndjson")
-        vlib.run_harness(["kpasswd", "-seed", str(run.seed), "-rounds", "6" if quick else "60", "-out", trace], timeout=2400)
+        import mitcross
+        mexe = mitcross.build_mitref()
+        vlib.run_harness(["kpasswd", "-seed", str(run.seed), "-rounds", "6" if quick else "60", "-out", trace] + (["-mitref", mexe] if mexe else []), timeout=2400)
         lines = vlib.read_ndjson(trace)
         res = vlib.tlc(wd, "TraceKPasswd", workers=1, timeout=1200)
         cl = [x for x in lines if x["ev"] == "client"]
         info["events"] = len(lines)
         info["exchanges"] = len(cl)
         info["success"] = sum(1 for x in cl if x["ok"])
+        info["mit_client_exchanges"] = sum(1 for x in lines if x["ev"] == "mitclient")
         info["by_reply"] = {m: sum(1 for x in cl if x["reply"] == m) for m in sorted({x["reply"] for x in cl})}
         if res.violation:
             return info, lines, "an invariant of KPasswd (SuccessIsAuthentic / ClientPasswordWasApplied / DatabaseFollowsRequests) is violated by the recorded run:\n" + res.out[-1500:]
